@@ -2073,3 +2073,11 @@ TABLE["C11"] += [
     B("enum-value-read-after-its-array-was-destroyed", {"H25"},
       (H, "  int32_T* value = (int32_T*)mxGetData(a_int32);\n", "  int32_T* value = (int32_T*)mxGetData(a_int32);\n  mxDestroyArray(a);\n  mxDestroyArray(a_int32);\n")),
 ]
+TABLE["C06"] += [
+    B("vector-guard-with-a-bare-alternative", {"M16"},
+      (MW, "                var_arg_wrap += ' && size(varargin{{{num}}},2)==1'.format(\n                    num=i)", "                var_arg_wrap += ' && size(varargin{{{num}}},2)==1 || isempty(varargin{{{num}}})'.format(\n                    num=i)")),
+    N("vector-guard-with-a-parenthesised-alternative",
+      (MW, "                var_arg_wrap += ' && size(varargin{{{num}}},2)==1'.format(\n                    num=i)", "                var_arg_wrap += ' && (size(varargin{{{num}}},2)==1 || isempty(varargin{{{num}}}))'.format(\n                    num=i)")),
+    B("constructor-routine-formatted-twice", {"M18"},
+      (MW, "                                      base=base)\n", "                                      base=base).format()\n")),
+]
